@@ -188,6 +188,11 @@ func vModel_context_WithDeadline(parent context.Context, d time.Time) (context.C
 		}
 		p.mu.Unlock()
 	}
+	if !d.After(vTimeAt(vClock)) {
+		// a deadline that has already passed: the context is over from the start
+		child.cancel(context.DeadlineExceeded)
+		return child, func() {}
+	}
 	vTimers = append(vTimers, &vTimer{at: int64(d.Sub(vEpoch)), fire: func() { child.cancel(context.DeadlineExceeded) }})
 	return child, func() { child.cancel(context.Canceled) }
 }
